@@ -26,6 +26,7 @@ C03 driver: replays a harness trace of two real `LightningChannel`s with reconne
 import LndModel.Prelude.Lines
 import LndModel.C01.Model
 import LndModel.C03.Model
+import LndModel.C03.Mirror
 
 open LndModel LndModel.Lines LndModel.C01 LndModel.C03
 
@@ -232,6 +233,9 @@ structure St where
   reloadChecks : Nat := 0
   htlcChecks : Nat := 0
   resigns : Nat := 0
+  inv2Checks : Nat := 0
+  inCut : Bool := false
+  pCount : Nat := 0
   signFailed : Nat := 0
   orderBoth : Nat := 0
 
@@ -241,6 +245,8 @@ def bump (l : List (String × Nat)) (k : String) : List (String × Nat) :=
   | none => l ++ [(k, 1)]
 
 def mismatch (s : St) (detail : String) : IO St := do
+  -- a case contaminated by the known defect F-C03-1 is no longer compared with the model
+  if !s.taint.isEmpty then return { s with modelOk := false, skOk := false }
   if s.caseMismatch < 3 then
     IO.println s!"MISMATCH case={s.caseId} line={s.lines} {detail}"
   return { s with mismatches := s.mismatches + 1, caseMismatch := s.caseMismatch + 1, modelOk := false }
@@ -249,6 +255,14 @@ def monitor (s : St) (clause detail : String) : IO St := do
   if s.caseMonitor < 4 then
     IO.println s!"MONITOR case={s.caseId} clause={clause} line={s.lines} {detail}"
   return { s with monitorFails := s.monitorFails + 1, caseMonitor := s.caseMonitor + 1 }
+
+def knownTag (s : St) (recv : String) : String :=
+  if s.taint.contains recv then
+    " known-gap=F-C03-1 (receiver restarted after a revocation it received before its own first revocation: its signed fee update was not persisted in remoteUnsignedLocalUpdates)"
+  else ""
+
+def knownTagAny (s : St) : String :=
+  if s.taint.isEmpty then "" else knownTag s (s.taint.headD "")
 
 def resOf (ws : List String) : String :=
   match ws.dropWhile (· ≠ "=>") with
@@ -429,15 +443,15 @@ def systemMonitors (s : St) : IO St := do
         if cx.cm.height == cy.cm.height then
           s := { s with mirrorSigned := s.mirrorSigned + 1 }
           if let some d := mirrorDiff cx cy true then
-            s ← monitor s "mirror-signed" s!"{nm} {d}"
+            s ← monitor s "mirror-signed" s!"{nm} {d}{knownTagAny s}"
   if s.qlenAB == 0 && s.qlenBA == 0 && nodeIdle s.dA && nodeIdle s.dB then
     s := { s with idleChecks := s.idleChecks + 1 }
     match s.dA.chainOf .loc, s.dA.chainOf .rem, s.dB.chainOf .loc, s.dB.chainOf .rem with
     | [al], [ar], [bl], [br] =>
       if let some d := mirrorDiff al br true then
-        s ← monitor s "mirror-idle" s!"A.local vs B.remote: {d}"
+        s ← monitor s "mirror-idle" s!"A.local vs B.remote: {d}{knownTagAny s}"
       if let some d := mirrorDiff bl ar true then
-        s ← monitor s "mirror-idle" s!"B.local vs A.remote: {d}"
+        s ← monitor s "mirror-idle" s!"B.local vs A.remote: {d}{knownTagAny s}"
       -- when idle both of a node's own commitments carry the same balances and HTLCs
       if al.cm.our + (if s.cfgA.initiator then 1000 * al.cm.fee else 0) !=
          ar.cm.our + (if s.cfgA.initiator then 1000 * ar.cm.fee else 0) then
@@ -571,13 +585,19 @@ def flush (s : St) : IO St := do
       match s.hist.find? (·.1 == key) with
       | some (_, old) =>
         if old != c.cm then
-          s ← monitor s "commit-stable" s!"node={node} commitment at height {c.cm.height} changed after it was created"
+          s ← monitor s "commit-stable" s!"node={node} commitment at height {c.cm.height} changed after it was created{knownTag s node}"
       | none =>
         s ← checkCommit s node c
         if c.cm.height > 0 then
           if let some (_, prev) := s.hist.find? (·.1 == (node, c.chain, c.cm.height - 1)) then
             s ← checkMoves s node (if node == "A" then s.cfgA.initiator else !s.cfgA.initiator) c.chain prev c.cm
         s := { s with hist := (key, c.cm) :: s.hist }
+  if s.reloaded.isEmpty && !s.inCut && s.skOk && s.pendSk.isNone && s.skA.lp.isEmpty && s.skB.lp.isEmpty && !s.dead then
+    -- hypothesis-free check of the index invariant the convergence theorems are proved from
+    s := { s with inv2Checks := s.inv2Checks + 1 }
+    let sys : SSys := { a := s.skA, b := s.skB, ab := s.sqab, ba := s.sqba }
+    if !inv2Ok sys then
+      s ← mismatch s s!"index invariant (Mirror.inv2Ok) does not hold: A->B {mirClauses s.skA s.skB s.sqab} B->A {mirClauses s.skB s.skA s.sqba} a=[lt={s.skA.lt} {repr s.skA.ltIdx} rt={s.skA.rt} {repr s.skA.rtIdx} rp={repr s.skA.rp} lwr={s.skA.lwr} l={s.skA.lIdx} r={s.skA.rIdx}] b=[lt={s.skB.lt} {repr s.skB.ltIdx} rt={s.skB.rt} {repr s.skB.rtIdx} rp={repr s.skB.rp} lwr={s.skB.lwr} l={s.skB.lIdx} r={s.skB.rIdx}] ab={repr s.sqab} ba={repr s.sqba}"
   if s.reloaded.isEmpty then
     s ← systemMonitors s
     if s.dA.seen && s.dB.seen && !s.dead then
@@ -657,7 +677,7 @@ def opLine (s : St) (node : String) (ws : List String) : IO St := do
       s := if node == "A" then { s with pendRevA := true, lastRevA := true, pendSigB := none }
            else { s with pendRevB := true, lastRevB := true, pendSigA := none }
       s := { s with pendSk := some (node, "revoke"), everRev := node :: s.everRev,
-                    gap := s.gap.filter (· != node), taint := s.taint.filter (· != node),
+                    gap := s.gap.filter (· != node),
                     signedNonAdd := s.signedNonAdd.filter (· != node) }
     if op == "sign" then
       s := { s with signs := s.signs + 1 }
@@ -725,11 +745,6 @@ def normMsg (n : Node) (m : Msg) : Msg :=
 def msgKind : Msg → String
   | .add .. => "add" | .settle _ => "settle" | .fail _ => "fail" | .fee _ => "fee"
   | .commitSig _ => "commitsig" | .revoke => "revoke"
-
-def knownTag (s : St) (recv : String) : String :=
-  if s.taint.contains recv then
-    " known-gap=F-C03-1 (receiver restarted after a revocation it received before its own first revocation: its signed fee update was not persisted in remoteUnsignedLocalUpdates)"
-  else ""
 
 def deliverLine (s : St) (ws : List String) : IO St := do
   let mut s ← flush s
@@ -813,7 +828,8 @@ def deliverLine (s : St) (ws : List String) : IO St := do
       let (e, n') := n.deliver (normMsg n m)
       let s2 := if dir == "AB" then { s with qab := rest } else { s with qba := rest }
       if e.toString != impl then
-        mismatch s2 s!"deliver {dir} {kind}: model={e.toString} impl={impl}"
+        if s.taint.contains recv then pure { s2 with modelOk := false }
+        else mismatch s2 s!"deliver {dir} {kind}: model={e.toString} impl={impl}"
       else pure (setNode s2 recv n')
 
 
@@ -836,7 +852,7 @@ def dropLine (s : St) (ws : List String) : IO St := do
   let mut s ← flush s
   s := { s with ops := s.ops + 1, cuts := s.cuts + 1, qab := [], qba := [], sqab := [], sqba := [],
                 snapAB := [], snapBA := [], winA := [], winB := [], qlenAB := 0, qlenBA := 0,
-                syA := none, syB := none }
+                syA := none, syB := none, inCut := true, pCount := 0 }
   let _ := ws
   return s
 
@@ -895,7 +911,8 @@ def processLine (s : St) (ws : List String) : IO St := do
   let mut s ← flush s
   let node := ws[1]?.getD ""
   let impl := resOf ws
-  s := readQ { s with ops := s.ops + 1, syncs := s.syncs + 1, dirty := [node] } ws
+  s := readQ { s with ops := s.ops + 1, syncs := s.syncs + 1, dirty := [node], pCount := s.pCount + 1 } ws
+  if s.pCount ≥ 2 then s := { s with inCut := false }
   s := { s with errKinds := bump s.errKinds ("sync_" ++ impl) }
   let toks := match (kv? ws "msgs").getD "-" with
     | "-" => []
@@ -1036,7 +1053,7 @@ def step (s : St) (line : String) : IO St := do
                       skA := {}, skB := {}, sqab := [], sqba := [], skOk := true, pendSk := none, reloaded := [],
                       lwrImpl := [], syA := none, syB := none, winA := [], winB := [], pendSigA := none,
                       pendSigB := none, pendRevA := false, pendRevB := false, lastRevA := false, lastRevB := false,
-                      committed := [], gone := [], tweakless := true, everRev := [], signedNonAdd := [], gap := [], taint := [] }
+                      committed := [], gone := [], tweakless := true, inCut := false, pCount := 0, everRev := [], signedNonAdd := [], gap := [], taint := [] }
     if s.samples < 4 then
       IO.println s!"SAMPLE {line}"
       return { s with samples := s.samples + 1 }
@@ -1105,6 +1122,7 @@ def main : IO Unit := do
   IO.println s!"STAT resigned_after_revocation={s.resigns}"
   IO.println s!"STAT resign_refused_by_channel_constraint={s.signFailed}"
   IO.println s!"STAT skeleton_state_checks={s.skelChecks}"
+  IO.println s!"STAT index_invariant_checks={s.inv2Checks}"
   IO.println s!"STAT restart_checks={s.reloadChecks}"
   IO.println s!"STAT htlc_exactly_once_checks={s.htlcChecks}"
   IO.println s!"STAT mismatches={s.mismatches}"
